@@ -11,7 +11,7 @@ from __future__ import annotations
 from ..core import Ctx
 from . import progs, tv
 
-PASSES = ["convert-scf-to-cf", "scf-for-loop-range-folding", "scf-for-loop-flatten", "licm", "control-flow-hoist", "lower-affine"]
+PASSES = ["convert-scf-to-cf", "scf-for-loop-range-folding", "scf-for-loop-flatten", "licm", "control-flow-hoist", "lower-affine", "scf-for-loop-unroll"]
 
 
 def programs(ctx: Ctx, n: int):
@@ -39,4 +39,4 @@ def run(ctx: Ctx):
                          "rule": "generated programs + exhaustive constant-bound loop family + loop nests + range-folding shapes + affine.for/affine.apply family x passes; only changed programs are executed"})
     ctx.sample({"pass": metas[0]["pass"], "before": metas[0]["text"], "after": metas[0].get("after", "")} if metas else "none")
     ctx.assumptions += ["Machine.tla is the reference semantics; a source loop with non-positive step is undefined and imposes nothing",
-                        "lower-affine is exercised on affine.for with constant bounds and affine.apply (affine.if / load / store / parallel are not generated); scf-for-loop-unroll and frontend-desymrefy are not exercised"]
+                        "lower-affine is exercised on affine.for with constant bounds and affine.apply (affine.if / load / store / parallel are not generated); frontend-desymrefy is not exercised"]
